@@ -89,7 +89,7 @@ prop("C02", NEC + "Clauses: token-range to text-range conversions unwrap first()
       {"rule": "ENTRY-GUARD", "floor": 6}, {"rule": "WHO-MAY", "filter": tag("exit"), "floor": 1},
       {"rule": "TOKEN-RANGE-SOURCE", "floor": 11}, {"rule": "INDEX-ELEM", "floor": 30},
       {"rule": "BUILTIN-SET", "floor": 3}, {"rule": "TEXT-SYNC", "filter": tag("batch", "clamp"), "floor": 6},
-      {"rule": "RECURSION-BOUND", "floor": 4}, {"rule": "CODEC", "floor": 7}, {"rule": "BROKER", "filter": tag("answer"), "floor": 1}])
+      {"rule": "RECURSION-BOUND", "floor": 4}, {"rule": "CODEC", "floor": 8}, {"rule": "BROKER", "filter": tag("answer"), "floor": 1}])
 
 prop("C03", NEC + "Clauses: each of the 27 build/semantic message kinds has an emitting site under table::* and its own "
      "text (VARIANTS); every error is attached in the reference frame of the node that owns it and is shifted exactly "
@@ -263,7 +263,7 @@ prop("C19", NEC + "Clauses: decode consumes nothing before its last `Ok(None)`, 
      "FramedRead (and thus one read buffer) serves the whole session; what is published for a change does not depend on what else is "
      "queued behind it (BROKER diag: publishing is guarded by the capability flag alone); the process is not terminated by process::exit "
      "on the graceful path, where responses may still be queued for the writer task (WHO-MAY exit).",
-     [{"rule": "CODEC", "floor": 7}, {"rule": "WHO-MAY", "filter": tag("framed"), "floor": 1},
+     [{"rule": "CODEC", "floor": 8}, {"rule": "WHO-MAY", "filter": tag("framed"), "floor": 1},
       {"rule": "BROKER", "filter": tag("diag"), "floor": 8}, {"rule": "WHO-MAY", "filter": tag("exit"), "floor": 1}])
 
 prop("C20", NEC + "Clauses: diagnostics only under `if send_diagnostics`, once per Open/Change; Close removes; "
